@@ -47,3 +47,49 @@ def repo_valid_files():
 
 def repo_all_files():
     return sorted(glob.glob(os.path.join(core.REPO, 'tests', '*.bz2')))
+
+
+def follower_stream(rnd, pre=60000, post=700000):
+    """A valid stream whose single block contains, inside its coded data, a
+    complete bogus block header followed by bits that keep decoding for as
+    long as the outer block lasts.  A speculative retrieve job started there
+    follows the sequential decoder across input blocks (regression input for
+    finding F2: stale job re-queued behind released input). -> (data, plain)"""
+    used = [16 * g + 2 * k for g in range(16) if g != 9 for k in range(8)]
+    alpha = len(used) + 2
+    lens = [7] * alpha
+    for i in range(2, 8):
+        lens[i] = 6
+
+    def tbits(l):
+        cur = 7; out = ['00111']
+        for x in l:
+            if x == cur:
+                out.append('10110' if cur == 7 else '11100')
+            elif x < cur:
+                out.append('110'); cur -= 1
+            else:
+                out.append('100'); cur += 1
+        return ''.join(out)
+    inner = bs.Block(used, [], [lens, lens], [1, 0] * 9001)
+    inner.eob = False
+    inner.crc = 0x5a5a5a5a
+    inner.orig = 0x050504
+    inner.table_bits = [tbits(lens), tbits(lens)]
+    bw = bs.BW()
+    inner.write(bw)
+    while bw.n % 8:
+        bw.puts('1' if bw.n % 2 else '0')
+    ib = bw.tobytes()
+    assert b'\xff' not in ib
+    fill = [0x40 | (x << 2) | 2 for x in (0b1011, 0b1101, 0b1110, 0b0111)]
+    syms = [rnd.choice(fill) for _ in range(pre)] + list(ib) + [rnd.choice(fill) for _ in range(post)]
+    oused = [b for b in range(256) if b not in (7, 11)]
+    ng = (len(syms) + 1 + 49) // 50
+    outer = bs.Block(oused, syms, [[8] * 256, [8] * 256], [0] * ng)
+    outer.orig = rnd.randrange(1, 1000)
+    data = bs.build([bs.Stream(9, [outer])])
+    v, info, out = ora.refbz(data)
+    if v != 'VALID':
+        raise core.HarnessError('follower stream not valid: ' + info['reason'])
+    return data, out
